@@ -98,7 +98,15 @@ def fsGetPerms (p : Bytes) : DM (Option Nat) := do
 def opCreat (p : Bytes) : DM Unit := do let s ← get; doOp (.creat (absPath s p))
 def opWrite (p : Bytes) (b : Bytes) : DM Unit := do
   if b.isEmpty then pure () else do let s ← get; doOp (.write (absPath s p) b)
-def opChmod (p : Bytes) (m : Nat) : DM Unit := do let s ← get; doOp (.chmod (absPath s p) m)
+/-- `filesystem::permissions`: a chmod which fails is no trouble if there is nothing to change (D105) -/
+def opChmod (p : Bytes) (m : Nat) : DM Unit := do
+  let s ← get
+  if s.faultAt == some s.opCount then
+    set { s with opCount := s.opCount + 1 }
+    if (match s.fs.stat (absPath s p) with
+        | some (.file _ m') => m' == m | some (.dir m') => m' == m | some (.other m') => m' == m | _ => false) then pure ()
+    else throw Exn.systemError
+  else doOp (.chmod (absPath s p) m)
 def opRename (a b : Bytes) : DM Unit := do let s ← get; doOp (.rename (absPath s a) (absPath s b))
 
 /-- `File::create_temporary`: created exclusively in $TMPDIR and unlinked at once -/
@@ -213,6 +221,9 @@ def refuseToPatch (o : Options) (outputFile : Bytes) (p : Patch) : DM Unit := do
     | .ok b => opWrite rej b
   else emit (.failed p.hunks.length p.hunks.length true none)
 
+/-- the first of the names which is an actual name (`first_name_of` in `guess_filepath`) -/
+def firstNameOf (ns : List Bytes) : Bytes := (ns.find? fun n => !n.isEmpty && n != devNull).getD []
+
 /-- `guess_filepath` -/
 def guessFilepath (p : Patch) (reverse : Bool) : DM Bytes := do
   -- reversing a rename or a copy starts from the file which it made
@@ -220,9 +231,10 @@ def guessFilepath (p : Patch) (reverse : Bool) : DM Bytes := do
   if p.oldPath != devNull && (← fsExists p.oldPath) then return p.oldPath
   if p.newPath != devNull && (← fsExists p.newPath) then return p.newPath
   if p.indexPath != devNull && (← fsExists p.indexPath) then return p.indexPath
-  if p.operation == .add then return p.newPath
-  -- a file which is to be removed but is not there (any more) is still the file the patch is about (D88)
-  if p.operation == .delete then return p.oldPath
+  -- a file which is created need not exist, neither does one which is removed (D88); /dev/null and a name which was left out are
+  -- never the file to patch (D104)
+  if p.operation == .add then return firstNameOf [p.newPath, p.oldPath, p.indexPath]
+  if p.operation == .delete then return firstNameOf [p.oldPath, p.newPath, p.indexPath]
   pure []
 
 /-- `read_tty_until_enter` -/
@@ -261,6 +273,8 @@ def backupName (o : Options) (p : Bytes) : Bytes :=
 /-- `Backup::make_backup_for` -/
 def makeBackupFor (o : Options) (p : Bytes) : DM Unit := do
   let bn := backupName o p
+  -- only a file has a backup: what else may be written to (with -o) stays where it is (D106)
+  if (← fsExists p) && !(← fsIsRegular p) then return
   let s ← get
   if !s.backedUp.contains bn then
     set { s with backedUp := s.backedUp ++ [bn] }
@@ -414,7 +428,8 @@ def processSection (o : Options) (format : Format) : DM Bool := do
     let mut writeToFile := !o.dryRun
     if o.removeEmptyFiles == .yes && patch.operation == .delete then
       if outBytes.isEmpty then
-        if !o.dryRun then
+        -- only a patch which was applied removes the file: if it was skipped or failed there was nothing in the file to begin with (D110)
+        if !o.dryRun && !r.skipped && r.failed == 0 then
           if shouldBackup then makeBackupFor o outputFile
           if (← fsExists outputFile) then removeFileAndEmptyParents outputFile
         writeToFile := false
